@@ -4,7 +4,10 @@ Correspondence: the exact sequence `orderer` yields vs the Lean model (`ordererG
 class graphs (chains, diamonds, shared leaves, several roots, self- and mutual cycles) with every
 dependency placed in a random keyword position; on element trees `ordererTree`.
 Oracle: the four clauses checked directly on the real output (every reachable class exactly once,
-after everything it depends on; cyclic => SchemaParseError; termination under a time limit)."""
+after everything it depends on; cyclic => SchemaParseError; termination under a time limit).
+Aliased element graphs: the non-object elements a dependency passes through (arrays, keyword-holding elements, anyOf/oneOf/allOf,
+not) are nodes of their own, so one such instance can be referred to from several places (what `$ref` produces) and can lie on a
+reference loop, with or without a class on it; same correspondence, same four clauses against reachability in the graph built."""
 import random
 import signal
 
@@ -258,6 +261,244 @@ def check_graph(drv, n, edges, positions, root_ids, out, stats, rng):
                 break
 
 
+# ---------------------------------------------------------------------------------------------------------------------------
+# Aliased element graphs: non-object elements as shared nodes of the graph
+WRAPPER_KINDS = ["array", "element", "anyOf", "oneOf", "allOf", "not"]
+WRAPPER_POSITIONS = {
+    "array": ["items", "tuple-items", "additionalItems", "contains"],
+    "element": ["items", "tuple-items", "additionalItems", "contains", "property", "patternProperties", "additionalProperties",
+                "propertyNames", "dependencies"],
+    "anyOf": ["elements"], "oneOf": ["elements"], "allOf": ["elements"], "not": ["element"],
+}
+SINGLE_SLOTS = ("items", "additionalItems", "contains", "additionalProperties", "propertyNames", "element")
+N_ALIASED = {"quick": 400, "thorough": 12000}
+
+
+def make_wrapper(kind):
+    """A non-object element with nothing of interest below it yet (children are attached by mutation, so loops are possible)."""
+    if kind == "array":
+        return Array(Element())
+    if kind == "element":
+        return Element()
+    if kind == "not":
+        return Not(Element())
+    return {"anyOf": AnyOf, "oneOf": OneOf, "allOf": AllOf}[kind](Element())
+
+
+def attach(W, V, position, counter, slots):
+    """Put element V directly below the non-object element W at `position`. `slots` records what each keyword of W holds, as the
+    harness set it (a single-valued keyword set twice keeps the last value): this, not a walk of W, is the ground truth."""
+    key = f"e{counter}"
+    if position == "items":
+        W.items = V
+        slots["items"] = [V]
+        slots.pop("tuple-items", None)
+    elif position == "tuple-items":
+        if isinstance(W.items, list):
+            W.items.append(V)
+        else:
+            W.items = [Element(), V]
+            slots.pop("items", None)
+        slots.setdefault("tuple-items", []).append(V)
+    elif position in ("additionalItems", "contains", "additionalProperties", "propertyNames", "element"):
+        setattr(W, position, V)
+        slots[position] = [V]
+    elif position == "elements":
+        W.elements.append(V)
+        slots.setdefault("elements", []).append(V)
+    elif position == "property":
+        if isinstance(W.properties, dict):
+            W.properties[key] = Property(V)
+        else:
+            W.properties = {key: Property(V)}
+        slots.setdefault("property", []).append(V)
+    elif position == "patternProperties":
+        pp = W.patternProperties if isinstance(W.patternProperties, dict) else {}
+        W.patternProperties = {**pp, "^" + key: V}
+        slots.setdefault("patternProperties", []).append(V)
+    elif position == "dependencies":
+        dd = W.dependencies if isinstance(W.dependencies, dict) else {}
+        W.dependencies = {**dd, key: V, key + "n": ["x"]}
+        slots.setdefault("dependencies", []).append(V)
+    else:
+        raise ValueError(position)
+
+
+def check_aliased(drv, n, kinds, links, root_ids, out, stats):
+    """Nodes 0..n-1 are classes C0.., nodes n.. are non-object elements of the given kinds; a link [s, d, position] puts node d
+    below node s (a class source goes through `wire`, i.e. any of the 14 positions, possibly behind fresh elements of its own;
+    a non-object source holds d directly under one of its own keywords). Roots may be classes or non-object elements."""
+    classes = [ObjectMeta(f"C{i}", (Object,), ObjectClassDict()) for i in range(n)]
+    nodes = classes + [make_wrapper(k) for k in kinds]
+    total = len(nodes)
+    slots = {i: {} for i in range(n, total)}
+    class_links = []
+    for k, (s, d, pos) in enumerate(links):
+        if s < n:
+            wire(None, nodes, s, d, pos, k)
+            class_links.append((s, d))
+        else:
+            attach(nodes[s], nodes[d], pos, k, slots[s])
+    index = {id(x): i for i, x in enumerate(nodes)}
+    edges = set(class_links)
+    for s, held in slots.items():
+        for values in held.values():
+            edges.update((s, index[id(v)]) for v in values)
+    adj = {i: sorted(d for (s, d) in edges if s == i) for i in range(total)}
+
+    def below(i):
+        """nodes reachable from node i by one or more links"""
+        seen, st = set(), list(adj[i])
+        while st:
+            x = st.pop()
+            if x not in seen:
+                seen.add(x)
+                st.extend(adj[x])
+        return seen
+    under = {i: below(i) for i in range(total)}
+    reach = {i for i in root_ids if i < n}
+    for r in root_ids:
+        reach |= {x for x in under[r] if x < n}
+    deps = {i: {x for x in under[i] if x < n} for i in reach}
+    cyclic = any(i in deps[i] for i in reach)
+    roots = [nodes[i] for i in root_ids]
+    case = {"family": "aliased", "classes": n, "wrappers": list(kinds), "links": [list(l) for l in links], "roots": list(root_ids)}
+    out.note_case(case, len(links) >= 2)
+
+    def count(name):
+        stats[name] = stats.get(name, 0) + 1
+    count("aliased-graphs")
+    count("aliased-cyclic" if cyclic else "aliased-acyclic")
+    referrers = {i: {s for (s, d) in edges if d == i} for i in range(n, total)}
+    shared = [i for i in range(n, total) if len(referrers[i]) >= 2 and (i in root_ids or any(i in under[r] for r in root_ids))]
+    looped = [i for i in range(n, total) if i in under[i]]
+    if shared:
+        count("aliased-one-instance-with-several-referrers")
+    if looped:
+        count("aliased-non-object-element-on-a-reference-loop")
+        if not cyclic and any(i in root_ids or any(i in under[r] for r in root_ids) for i in looped):
+            count("aliased-reachable-loop-without-a-class-on-it")
+    if any(i in looped and any(s not in under[i] for s in referrers[i]) for i in shared):
+        count("aliased-loop-element-also-referred-to-from-outside-the-loop")
+    if any(r >= n for r in root_ids):
+        count("aliased-non-object-root")
+    for s, d, pos in links:
+        count("alias-pos-" + ("class" if s < n else kinds[s - n]) + "." + pos)
+
+    real = run_orderer(roots)
+    # model: the class graph an independent walk finds in the objects built
+    try:
+        order = [c.__name__ for c in get_object_classes(*roots)]
+    except Exception:  # noqa: BLE001
+        order = [f"C{i}" for i in root_ids if i < n]
+    model_edges = [[f"C{i}", direct_class_children(classes[i])] for i in range(n)]
+    rep = drv.ask({"op": "order_graph", "order": order, "edges": model_edges})
+    if "error" not in rep:
+        out.traces_validated += 1
+        if rep != real:
+            out.disagreements.append({"what": "declaration order (aliased element graph)", "impl": real, "model": rep, **case})
+    # oracle: the statement's clauses against reachability in the graph as built
+    if real["r"] in ("timeout", "recursion") or real["r"].startswith("exc:"):
+        out.failures.append({"case": case, "what": f"orderer ended with {real['r']}", "finding": None})
+        return
+    if cyclic:
+        on = sorted(f"C{i}" for i in reach if i in deps[i])
+        if real["r"] != "unresolvable":
+            out.failures.append({"case": case, "what": f"classes {on} depend on themselves but orderer returned {real}", "finding": None})
+        elif real.get("yielded_before_error"):
+            out.failures.append({"case": case, "what": f"cyclic dependencies: a partial order {real['yielded_before_error']} was yielded before the schema-parse error", "finding": None})
+        return
+    if real["r"] != "ok":
+        out.failures.append({"case": case, "what": "no class depends on itself, yet the graph was refused as unresolvable", "finding": None})
+        return
+    names = real["order"]
+    want = {f"C{i}" for i in reach}
+    if len(names) != len(set(names)):
+        out.failures.append({"case": case, "what": f"a class is yielded twice: {names}", "finding": None})
+    elif set(names) != want:
+        out.failures.append({"case": case, "what": f"yielded {sorted(names)}, reachable classes are {sorted(want)}", "finding": None})
+    else:
+        pos = {nm: i for i, nm in enumerate(names)}
+        for u in sorted(reach):
+            late = sorted(v for v in deps[u] if pos[f"C{v}"] > pos[f"C{u}"])
+            if late:
+                out.failures.append({"case": case, "what": f"C{u} is declared before C{late[0]}, which it depends on; order {names}", "finding": None})
+                break
+
+
+def pick_position(rng, kinds, n, s, used):
+    """A keyword position for a link leaving node s; a single-valued keyword of a non-object element is not given twice
+    if another position is free."""
+    if s < n:
+        return rng.choice(POSITIONS)
+    options = WRAPPER_POSITIONS[kinds[s - n]]
+    free = [p for p in options if not (p in SINGLE_SLOTS and (s, p) in used)
+            and not (p == "items" and (s, "tuple-items") in used) and not (p == "tuple-items" and (s, "items") in used)]
+    pos = rng.choice(free or options)
+    used.add((s, pos))
+    return pos
+
+
+def random_aliased(rng, mode):
+    """mode 0: no reference loop at all (sharing only); 1: arbitrary links (class cycles, loops through shared elements);
+    2: loops among the non-object elements only, classes strictly layered around them (self-containing structures, no class cycle)."""
+    n, w = rng.randint(1, 5), rng.randint(1, 4)
+    if mode == 2:
+        n, w = max(n, 2), max(w, 2)                           # room for a loop entered at two places and a class on either side
+    total = n + w
+    kinds = [rng.choice(WRAPPER_KINDS) for _ in range(w)]
+    rank = list(range(total))
+    rng.shuffle(rank)
+    upper = {i for i in range(n) if rng.random() < 0.5}      # mode 2: classes above the non-object block; the rest lie below it
+    links, used, have = [], set(), set()
+    for _ in range(rng.randint(1 if mode != 2 else total, min(2 * total, 14))):
+        s, d = rng.randrange(total), rng.randrange(total)
+        if mode == 2 and rng.random() < 0.3:                  # links inside the non-object block: that is where the loops are
+            s, d = rng.randrange(n, total), rng.randrange(n, total)
+        elif rng.random() < 0.5:                              # favour links that touch a non-object element
+            if rng.random() < 0.5:
+                s = rng.randrange(n, total)
+            else:
+                d = rng.randrange(n, total)
+        if mode == 0:
+            if s == d:
+                continue
+            if rank[s] > rank[d]:
+                s, d = d, s
+        elif mode == 2:
+            layer = lambda i: 1 if i >= n else (0 if i in upper else 2)   # noqa: E731
+            if layer(s) > layer(d):
+                s, d = d, s
+            if layer(s) == layer(d) and layer(s) != 1:
+                if s == d:
+                    continue
+                if rank[s] > rank[d]:
+                    s, d = d, s
+        if (s, d) in have and rng.random() < 0.8:
+            continue
+        have.add((s, d))
+        links.append([s, d, pick_position(rng, kinds, n, s, used)])
+    roots = []
+    for _ in range(rng.choice([1, 1, 2, 3])):
+        r = rng.randrange(n) if rng.random() < 0.8 else rng.randrange(total)
+        if mode == 2 and upper and rng.random() < 0.6:
+            r = rng.choice(sorted(upper))
+        if r not in roots:
+            roots.append(r)
+    return n, kinds, links, roots
+
+
+def aliased_version(rng, n, edges, kind):
+    """The class graph `edges` with every dependency on a class going through ONE non-object element of `kind` standing in front of
+    that class: all classes that depend on it refer to the same instance."""
+    targets = sorted({v for (_, v) in edges})
+    front = {v: n + i for i, v in enumerate(targets)}
+    used = set()
+    links = [[front[v], v, pick_position(rng, [kind] * len(targets), n, front[v], used)] for v in targets]
+    links += [[u, front[v], rng.choice(POSITIONS)] for (u, v) in edges]
+    return [kind] * len(targets), links
+
+
 def random_graph(rng, n, cyclic_ok):
     edges = []
     m = rng.randint(0, min(2 * n, 12))
@@ -277,7 +518,11 @@ def run(ctx, scale=1.0):
     out = Outcome()
     out.rule = ("class graphs on 1-8 classes with 0-12 dependency edges, each placed in one of 14 keyword positions (incl. nested several "
                 "levels deep), 1-3 roots; half forced acyclic, half arbitrary (self-, mutual and long cycles occur); thorough adds all graphs "
-                "on <= 3 classes x all positions; a case is one graph; non-trivial = at least 2 edges; distinct by SHA-256")
+                "on <= 3 classes x all positions; aliased element graphs: 1-5 classes + 1-4 non-object elements (array / keyword-holding element / "
+                "anyOf / oneOf / allOf / not) as nodes of their own, 1-14 links between any two nodes (one instance referred to from several "
+                "places, reference loops with and without a class on them; a third loop-free, a third arbitrary, a third with loops among the "
+                "non-object elements only), 1-3 roots of either sort, and the fixed shapes with every class behind one shared element; "
+                "a case is one graph; non-trivial = at least 2 edges; distinct by SHA-256")
     stats = {}
     drv = core.Driver()
     try:
@@ -303,6 +548,18 @@ def run(ctx, scale=1.0):
             check_graph(drv, 5, [(0, 1), (0, 2), (1, 3), (2, 4)], ["property", "property", "plain:" + pos, "plain:" + pos], [0], out, stats, rng)
             check_graph(drv, 7, [(0, 1), (0, 2), (1, 3), (2, 4), (3, 5), (4, 6)],
                         ["items", "contains", "plain:" + pos, "plain:" + pos, "plain:" + pos, "plain:" + pos], [0], out, stats, rng)
+        # aliased element graphs (non-object elements shared between referrers and on reference loops)
+        for i in range(int(N_ALIASED[ctx["tier"]] * scale)):
+            n, kinds, links, roots = random_aliased(rng, i % 3)
+            check_aliased(drv, n, kinds, links, roots, out, stats)
+        # the fixed shapes again, every dependency on a class passing through one shared element in front of it
+        for n, edges, roots in shapes:
+            if not edges:
+                continue
+            for kind in WRAPPER_KINDS:
+                for _ in range(2):
+                    kinds, links = aliased_version(rng, n, edges, kind)
+                    check_aliased(drv, n, kinds, links, roots, out, stats)
         if ctx["tier"] == "thorough":
             import itertools
             for n in (1, 2, 3):
@@ -328,6 +585,9 @@ def _replay_case(case):
     out, stats = Outcome(), {}
     drv = core.Driver()
     try:
+        if case.get("family") == "aliased":
+            check_aliased(drv, case["classes"], case["wrappers"], [tuple(l) for l in case["links"]], case["roots"], out, stats)
+            return out
         edges = [(u, v) for u, v, _ in case["edges"]]
         positions = [p for _, _, p in case["edges"]]
         check_graph(drv, case["classes"], edges, positions, case["roots"], out, stats, random.Random(0))
